@@ -402,7 +402,7 @@ const MALFORMED: [(&str, &[&str]); 10] = [
     ("returns-two-identifiers", &[" @returns a b: text"]),
 ];
 
-const MISFIT: [(&str, &[&str]); 10] = [
+const MISFIT: [(&str, &[&str]); 12] = [
     ("param-no-such-parameter", &[" @param nosuchparam: text"]),
     ("returns-on-non-returning", &[" @returns: text"]),
     ("param-on-non-operation", &[" @param x: text"]),
@@ -416,6 +416,10 @@ const MISFIT: [(&str, &[&str]); 10] = [
     ("returns-on-non-returning-multiline", &[" @returns: a long first line of text for the message", " x", " y z"]),
     // `returnValue` is what the compiler itself calls an unnamed return value: the comment may not
     ("returns-internal-name-on-unnamed-return", &[" @returns returnValue: text"]),
+    // a `@param` tag may only name a parameter: not a member of the return tuple (`@RET@` is replaced by the name
+    // of one that no parameter has), and not the compiler's own name for an unnamed return value
+    ("param-names-a-return-member", &[" @param @RET@: text"]),
+    ("param-internal-name-of-unnamed-return", &[" @param returnValue: text"]),
 ];
 
 /// Number of IncorrectDocComment lints a misfit form must at least produce.
@@ -438,19 +442,34 @@ pub struct Defect {
 /// Builds the defect of one case; `Err(label)` when the chosen defect does not apply.
 pub fn make_defect(u: &mut Unstructured, cfg: &GenCfg) -> Result<Defect, &'static str> {
     let malformed = pick(u, 3) != 0;
-    let which = pick(u, 10);
+    let which = pick(u, 12);
     let (mut p, _labels) = gen_program(u, cfg);
     // choose the victim among the commentable elements
     let paths: Vec<(String, &'static str)> = commentables(&p).iter().map(|c| (c.0.clone(), c.3)).collect();
     if paths.is_empty() {
         return Err("no-commentable-element");
     }
-    let (victim, vkind) = paths[pick(u, paths.len())].clone();
     let (name, lines): (&str, &[&str]) = if malformed {
         MALFORMED[which % MALFORMED.len()]
     } else {
         MISFIT[which % MISFIT.len()]
     };
+    // forms that only fit an operation choose among the operations (there are few of them among all elements)
+    let needs_operation = !malformed
+        && matches!(
+            name,
+            "param-no-such-parameter"
+                | "returns-named-no-such-member"
+                | "returns-unnamed-then-no-such-member"
+                | "two-returns-no-such-member"
+                | "two-params-no-such-parameter"
+                | "returns-internal-name-on-unnamed-return"
+                | "param-names-a-return-member"
+                | "param-internal-name-of-unnamed-return"
+        );
+    let operations: Vec<(String, &'static str)> = paths.iter().filter(|c| c.1 == "operation").cloned().collect();
+    let pool = if needs_operation && !operations.is_empty() { &operations } else { &paths };
+    let (victim, vkind) = pool[pick(u, pool.len())].clone();
     // misfit forms need the right kind of victim
     let vpre = victim_prelude(&mut p, &victim);
     let Some(vpre) = vpre else { return Err("no-prelude") };
@@ -469,6 +488,21 @@ pub fn make_defect(u: &mut Unstructured, cfg: &GenCfg) -> Result<Defect, &'stati
             }
             "two-params-no-such-parameter" => vkind == "operation",
             "returns-internal-name-on-unnamed-return" => vkind == "operation" && single_unnamed_return(&p, &victim),
+            "param-internal-name-of-unnamed-return" => {
+                vkind == "operation" && single_unnamed_return(&p, &victim) && !member_names(&p, &victim).0.iter().any(|n| n == "returnValue")
+            }
+            "param-names-a-return-member" => {
+                let (params, rets) = member_names(&p, &victim);
+                match rets.iter().find(|r| !params.contains(r)).cloned() {
+                    Some(r) if vkind == "operation" => {
+                        if let Some(pre) = victim_prelude(&mut p, &victim) {
+                            pre.doc = vec![format!(" @param {r}: text")];
+                        }
+                        true
+                    }
+                    _ => false,
+                }
+            }
             _ => false,
         }
     };
@@ -553,6 +587,30 @@ fn single_unnamed_return(p: &Program, path: &str) -> bool {
     match p.files.get(fi).and_then(|f| f.defs.get(di)) {
         Some(DefM::Interface(i)) => i.ops.get(k).map(|o| matches!(o.ret, RetM::Single(_))).unwrap_or(false),
         _ => false,
+    }
+}
+
+/// Names of the parameters and of the (named) return members of the operation at `path`.
+fn member_names(p: &Program, path: &str) -> (Vec<String>, Vec<String>) {
+    let segs: Vec<&str> = path.split('/').collect();
+    if segs.len() != 3 {
+        return (vec![], vec![]);
+    }
+    let (Ok(fi), Ok(di), Ok(k)) = (segs[0][1..].parse::<usize>(), segs[1][1..].parse::<usize>(), segs[2][1..].parse::<usize>()) else {
+        return (vec![], vec![]);
+    };
+    match p.files.get(fi).and_then(|f| f.defs.get(di)) {
+        Some(DefM::Interface(i)) => match i.ops.get(k) {
+            Some(o) => {
+                let rets = match &o.ret {
+                    RetM::Tuple(ms) => ms.iter().map(|m| m.name.clone()).collect(),
+                    _ => vec![],
+                };
+                (o.params.iter().map(|m| m.name.clone()).collect(), rets)
+            }
+            None => (vec![], vec![]),
+        },
+        _ => (vec![], vec![]),
     }
 }
 
